@@ -4,7 +4,7 @@ use crate::rng::Rng;
 use autosar_data::CharacterData;
 use autosar_data_specification::*;
 
-pub const ITEM_NAMES: [&str; 9] = ["a", "a1", "a10", "a1b", "a_1", "b", "a2", "B", "ab"];
+pub const ITEM_NAMES: [&str; 11] = ["a", "a1", "a10", "a1b", "a_1", "b", "a2", "B", "ab", "a18446744073709551616", "a99999999999999999999999"];
 pub const HOSTILE_NAMES: [&str; 8] = ["", "1a", "a b", "a/b", "ä", "a-b", " a", "_x"];
 
 pub const PATTERN_CANDIDATES: [&str; 54] = [
